@@ -428,6 +428,9 @@ class Consumer(object):
         # Are we waiting for a request to come back?
         if self._request_d:
             self._request_d.cancel()
+            # A reply that arrived during processing has already fired this
+            # deferred and is parked behind the block: nothing will clear it.
+            self._request_d = None
         # Are we working our way through a block of messages?
         if self._msg_block_d:
             # Need to add a cancel handler...
